@@ -19,3 +19,5 @@ func verifDialRESP(address string, timeout time.Duration) (net.Conn, error, bool
 }
 
 func verifPoint(s *Server, name string) {}
+
+func verifFault(s *Server, name string) error { return nil }
